@@ -98,6 +98,14 @@ theorem standard_steps_are_app_then_hook (cfg : Cfg) (h : cfg.ackSteps = stdAckS
 
 example : (refCfg 4).ackSteps = stdAckSteps := rfl
 
+/-- … and the timeout: with the standard list it is the transfer application's refund followed by the hook's conversion of
+what was handed back (`refundState`) -/
+theorem standard_timeout_steps_are_app_then_hook (cfg : Cfg) (h : cfg.timeoutSteps = stdTimeoutSteps) (s : State) (l : Ch)
+    (seq : Seq) (p : Pkt) : settleState cfg s l seq p .timeout = refundState cfg s l seq p cfg.timeoutRefunds :=
+  runMw_std_timeout cfg s l seq p h
+
+example : (refCfg 4).timeoutSteps = stdTimeoutSteps := rfl
+
 /-! ## 1. inbound transfer: exact credit in ERC-20 form, or error acknowledgement and nothing changes -/
 
 /-- For every state and every inbound packet addressed to a hex account, on any channel (whatever the counterparty calls
@@ -937,7 +945,7 @@ Theorems of this file:
   settled_is_final, relation_key_text, relation_key_injective, send_records_own_key, erc20_supply_backed,
   ack_decision_agrees, app_ack_decision, wire_ack_settles_as_classified, wire_ack_undecodable_changes_nothing,
   wire_error_ack_refunds_erc20, wire_success_ack_only_removes_record, empty_error_text_witness, genCfg_middleware_steps,
-  (round 4) genCfg_middleware_prog, standard_steps_are_app_then_hook, parse_recomputes_credited_denom,
+  (round 4) genCfg_middleware_prog, standard_steps_are_app_then_hook, standard_timeout_steps_are_app_then_hook, parse_recomputes_credited_denom,
   hook_sees_credited_denom, only_returning_fx_is_native, base_name_fast_path_witness, non_canonical_ack_changes_nothing,
   non_canonical_ack_then_refund, canonical_check_first_blocks, both_arms_without_canonical_check_witness,
   hook_before_application_witness
